@@ -119,39 +119,73 @@ def run(repo, rep, tier):
     r5 = rep.rule("R6.5", "quantity names are written only on objects fresh out of ed()", floor=14)
 
     # ---------------------------------------------------------------- R6.2
+    def check_builder(c, f, roots, must_return=True):
+        rep.analysed_functions.add(f.construct)
+        ctx, ret, constructed = ck.eval(c, f, roots)
+        if ret is None:
+            if must_return:
+                raise AnalysisError(f"{f.construct}: no returned value found")
+            return False
+        if not must_return and not (ret.kind == "O" and prim_of(repo, models, ret.cls) is not None):
+            return False        # not a builder of aggregators
+        if ret.kind == "A" and ret.own != FRESH:
+            r2.ob(False)
+            rep.finding("R6.2", f, f.node, f"returns an object borrowed from `{desc_own(ret.own)}` instead of a new one",
+                        stmt="returns operand")
+        for call, obj in constructed:
+            ck.check_object_fields("R6.2", f, call, obj, r2)
+        # patches on the result object (out.F = ..., out.F[k] = ...)
+        allfields = set()
+        for mm in models.values():
+            allfields |= set(mm.slots)
+        allfields.add("values")
+        for (root, fld, v, node, kind) in ctx.stores:
+            if root in roots:
+                continue  # stores into operands are R6.1's business
+            if fld not in allfields:
+                continue
+            bads = bad_parts(v)
+            r2.ob(not bads, f"{f.qualname}: {root}.{fld} <- {v!r}")
+            for d, own in bads:
+                rep.finding(
+                    "R6.2", f, node,
+                    f"`{root}.{fld}` of the result receives {d} borrowed from `{desc_own(own)}` (no copy()/zero()/+): the "
+                    f"result shares this mutable state with an operand, so filling or merging one changes the other",
+                    stmt=f"{c.name}.{fld} <- {desc_own(own)} via {norm(node)[:80]}",
+                )
+        return True
+
     for c in prims:
-        m = models[c.name]
         for name in RESULT_BUILDERS:
             f = repo.own_method(c, name)
-            rep.analysed_functions.add(f.construct)
             roots = {f.params[0]: "self"}
             if len(f.params) > 1 and name == "__add__":
                 roots[f.params[1]] = "other"
-            ctx, ret, constructed = ck.eval(c, f, roots)
-            if ret is None:
-                raise AnalysisError(f"{f.construct}: no returned value found")
-            if ret.kind == "A" and ret.own != FRESH:
-                r2.ob(False)
-                rep.finding("R6.2", f, f.node, f"returns an object borrowed from `{desc_own(ret.own)}` instead of a new one",
-                            stmt="returns operand")
-            for call, obj in constructed:
-                ck.check_object_fields("R6.2", f, call, obj, r2)
-            # patches on the result object (out.F = ..., out.F[k] = ...)
-            fields = list(m.slots) + (["values"] if m.name == "Bag" else [])
-            for (root, fld, v, node, kind) in ctx.stores:
-                if root in roots:
-                    continue  # stores into operands are R6.1's business
-                if fld not in fields:
+            check_builder(c, f, roots)
+    # derived views that build aggregators (projections of 2-D histograms in the plotting mixins): same freshness rule
+    nviews = 0
+    for cs in repo.classes.values():
+        for k in cs:
+            if not k.module.name.startswith("histogrammar.plot"):
+                continue
+            host = None
+            for cs2 in repo.classes.values():
+                for k2 in cs2:
+                    mro = repo.mro(k2)
+                    if k in mro:
+                        host = host or next((x for x in mro if x.name in models), None)
+            if host is None:
+                continue
+            for f in k.methods.values():
+                if f.is_static or not f.params or f.name.startswith("plot"):
                     continue
-                bads = bad_parts(v)
-                r2.ob(not bads, f"{f.qualname}: {root}.{fld} <- {v!r}")
-                for d, own in bads:
-                    rep.finding(
-                        "R6.2", f, node,
-                        f"`{root}.{fld}` of the result receives {d} borrowed from `{desc_own(own)}` (no copy()/zero()/+): the "
-                        f"result shares this mutable state with an operand, so filling or merging one changes the other",
-                        stmt=f"{c.name}.{fld} <- {desc_own(own)} via {norm(node)[:80]}",
-                    )
+                try:
+                    if check_builder(host, f, {f.params[0]: "self"}, must_return=False):
+                        nviews += 1
+                except AnalysisError:
+                    raise
+    if nviews < 4:
+        raise AnalysisError(f"R6.2: only {nviews} aggregator-building views found in the plotting mixins (6 projections expected)")
     # ---------------------------------------------------------------- R6.3 defaults + constructor summaries
     seen_defaults = 0
     for mod in repo.modules.values():
@@ -369,6 +403,17 @@ def purity(repo, rep, r1, ck, prims, models):
         for c in cs:
             if any(x in prims or x is cont for x in repo.mro(c)) or c.module.name.startswith("histogrammar.plot"):
                 classes.append(c)
+    # mixins (histogrammar.plot.*) get the shapes of the primitive they are combined with in histogrammar.specialized
+    mixin_host = {}
+    for cs in repo.classes.values():
+        for k in cs:
+            mro = repo.mro(k)
+            host = next((x for x in mro if x.name in models), None)
+            if host is None:
+                continue
+            for x in mro:
+                if x.module.name.startswith("histogrammar.plot") and x not in mixin_host:
+                    mixin_host[x] = host
     # effect summaries of self-methods: fixpoint "mutates its receiver"
     summ = {}
     direct = {}
@@ -381,6 +426,8 @@ def purity(repo, rep, r1, ck, prims, models):
                 if x.name in models:
                     pk = x
                     break
+            if pk is None:
+                pk = mixin_host.get(c)     # a plotting mixin: analysed with the field shapes of the primitive it is mixed into
             roots = {p: ("self" if i == 0 else p) for i, p in enumerate(f.params)}
             try:
                 eff = direct_effects(repo, ck, pk or c, f, roots)
@@ -442,6 +489,35 @@ def purity(repo, rep, r1, ck, prims, models):
                                 stmt=f"mutable default {p} written")
 
 
+_ATTR_MUT = {}
+
+
+def attr_mutated_somewhere(repo, attr):
+    """Is `<obj>.attr` updated in place anywhere in the package (element store, augmented element store, mutating call)?"""
+    if not _ATTR_MUT.get(id(repo)):
+        found = set()
+        for mod in repo.modules.values():
+            for n in ast.walk(mod.tree):
+                tg = []
+                if isinstance(n, ast.Assign):
+                    tg = n.targets
+                elif isinstance(n, ast.AugAssign):
+                    tg = [n.target]
+                elif isinstance(n, ast.Delete):
+                    tg = n.targets
+                for t in tg:
+                    if isinstance(t, ast.Subscript):
+                        b = t
+                        while isinstance(b, ast.Subscript):
+                            b = b.value
+                        if isinstance(b, ast.Attribute):
+                            found.add(b.attr)
+                if isinstance(n, ast.Call) and isinstance(n.func, ast.Attribute) and n.func.attr in MUTATING_CALLS and isinstance(n.func.value, ast.Attribute):
+                    found.add(n.func.value.attr)
+        _ATTR_MUT[id(repo)] = found
+    return attr in _ATTR_MUT[id(repo)]
+
+
 def mutable_default_writes(repo):
     """[(FuncInfo, param, node, description)] for every function of the package that modifies a mutable default argument
     (directly or through a plain local alias).  Nested functions included."""
@@ -494,6 +570,14 @@ def mutable_default_writes(repo):
                     elif isinstance(n, ast.Call) and isinstance(n.func, ast.Attribute) and n.func.attr in MUTATING_CALLS | {"union_update", "intersection_update", "difference_update"} \
                             and isinstance(n.func.value, ast.Name) and n.func.value.id in aliases:
                         hit = f"`{ast.unparse(n)[:60]}`"
+                    # escapes: the default object itself is stored into an attribute / a container element or returned, so the
+                    # one object created at `def` time becomes (part of) the state of every result built with the default
+                    if hit is None and isinstance(n, ast.Assign) and isinstance(n.value, ast.Name) and n.value.id in aliases:
+                        for t in n.targets:
+                            if isinstance(t, ast.Subscript) or (isinstance(t, ast.Attribute) and attr_mutated_somewhere(repo, t.attr)):
+                                hit = f"`{ast.unparse(n)}` (the default object itself becomes `{ast.unparse(t)}`, which the package updates in place)"
+                    if hit is None and isinstance(n, ast.Return) and isinstance(n.value, ast.Name) and n.value.id in aliases:
+                        hit = f"`{ast.unparse(n)}` (the default object itself is handed out)"
                     if hit:
                         # a parameter that is re-bound to a fresh object before (`if x is None: x = set()` style) is a different matter:
                         # only report when the default object itself can reach the write: the parameter is not unconditionally re-bound
